@@ -82,6 +82,8 @@ pub fn function_family() -> Vec<FuncSpec> {
         ),
         func("concat", "concat", vec![], vec![], Ty::Bytes),
         func("ctxfn", "ctxfn", vec![], vec![], Ty::Int),
+        // three arguments: with a mapped first argument the two others may be one cheap and one expensive
+        func("join3", "join3", vec![p("Both", Ty::Bytes), p("Both", Ty::Bytes), p("Both", Ty::Bytes)], vec![], Ty::Bytes),
     ]
 }
 
